@@ -84,3 +84,37 @@ package badger
 //@   ensures batch != nil && batch.ctx != nil ==> ndel == 1 && sameslice(delKey, batch.ctx.ConstructKey(tk))
 //@   ensures batch != nil && batch.ctx != nil && batch.vctx != nil ==> nset == 1 && sameslice(setKey, batch.vctx.TombstoneKey(tk))
 //@   ensures batch != nil && batch.ctx != nil && batch.vctx == nil ==> nset == 0
+
+// ---- range scans and range deletes (C05) ----
+
+// versionedRange: the scan covers exactly [MinVersionKey(beg), MaxVersionKey(end)] (all versions,
+// tombstones included, of every datum in the interval) and the per-datum group boundary is the
+// MaxVersionKey of the datum currently being collected.
+//@ func BadgerDB.versionedRange
+//@   prop C05
+//@   safety_off
+//@   modifies *
+//@   ghost curTK []byte = begTKey
+//@   ghostset at "maxVersionKey, err = vctx.MaxVersionKey(indexBytes)": curTK = indexBytes
+//@   ghost gMin []byte = nil
+//@   ghost gMax []byte = nil
+//@   ghostset at "values := []*storage.KeyValue{}": gMin = vctx.MinVersionKey(begTKey).0
+//@   ghostset at "values := []*storage.KeyValue{}": gMax = vctx.MaxVersionKey(endTKey).0
+//@   assert at "values := []*storage.KeyValue{}": sameslice(maxVersionKey, vctx.MaxVersionKey(begTKey).0)
+//@   assert at "for it.Seek(minKey); it.Valid(); it.Next() {": sameslice(minKey, gMin)
+//@   assert at "if bytes.Compare(kv.K, maxKey) > 0 {": sameslice(maxKey, gMax)
+//@   invariant loop 1: sameslice(maxVersionKey, vctx.MaxVersionKey(curTK).0)
+
+// DeleteRange: every delete issued into a batch is committed before a successful return
+// (ghost pending = deletes in the current, not yet committed batch).
+//@ func BadgerDB.DeleteRange
+//@   prop C05
+//@   safety_off
+//@   modifies *
+//@   ghost pending int = 0
+//@   ghost batches int = 0
+//@   ghostset at "wb.Delete(tk)": pending = pending + 1
+//@   ghostset at "if err := wb.Commit(); err != nil {": batches = batches + ite(pending == 1000, 1, 0)
+//@   ghostset at "if err := wb.Commit(); err != nil {": pending = 0
+//@   invariant loop 1: 0 <= numKV && numKV <= 1000000000000 && 0 <= batches && batches <= 1000000000 && 0 <= pending && pending < 1000 && numKV == 1000 * batches + pending
+//@   ensures result == nil && db != nil && ctx != nil ==> pending == 0
